@@ -33,6 +33,97 @@ pub enum Base {
 	Random(Hex),
 	/// a CA certificate with structurally valid but unusual field contents (structure-aware fuzzing)
 	OddCa(OddCa),
+	/// a SubjectPublicKeyInfo / PKCS#8 document around an unusual AlgorithmIdentifier
+	OddKey(OddKey),
+}
+
+/// Key documents that a generic DER parser accepts but whose AlgorithmIdentifier (OID x parameters
+/// form), version or key octets are not what the loaders' match arms expect.
+#[derive(Clone, Debug, Serialize, Deserialize, PartialEq, Eq, Hash)]
+pub struct OddKey {
+	pub key: KeySpec,
+	/// 0 = SubjectPublicKeyInfo, 1 = PKCS#8 v1, 2 = PKCS#8 with [1] public key, 3 = PKCS#8 with [0] attributes
+	pub form: u8,
+	pub alg_oid: u8,
+	pub params: u8,
+	/// replaces the fixture's key octets when present
+	pub key_octets: Option<Hex>,
+	pub unused_bits: u8,
+	pub version: Hex,
+}
+
+fn odd_key() -> BoxedStrategy<OddKey> {
+	(
+		gen::key_spec(),
+		0u8..4,
+		prop_oneof![4 => Just(0u8), 2 => Just(1u8), 2 => Just(2u8), 1 => 3u8..8],
+		0u8..12,
+		prop::option::weighted(0.3, proptest::collection::vec(any::<u8>(), 0..70)),
+		prop_oneof![6 => Just(0u8), 1 => 1u8..8, 1 => any::<u8>()],
+		prop_oneof![5 => Just(vec![0u8]), 2 => Just(vec![1u8]), 1 => proptest::collection::vec(any::<u8>(), 0..3)],
+	)
+		.prop_map(|(key, form, alg_oid, params, key_octets, unused_bits, version)| OddKey {
+			key,
+			form,
+			alg_oid,
+			params,
+			key_octets: key_octets.map(Hex),
+			unused_bits,
+			version: Hex(version),
+		})
+		.boxed()
+}
+
+pub fn forge_odd_key(o: &OddKey) -> Result<Vec<u8>, String> {
+	use crate::der::{enc_oid, enc_seq, enc_tlv};
+	let oids: [&[u64]; 8] = [
+		&[1, 2, 840, 10045, 2, 1],       // id-ecPublicKey
+		&[1, 2, 840, 113549, 1, 1, 1],  // rsaEncryption
+		&[1, 3, 101, 112],              // Ed25519
+		&[1, 3, 101, 113],              // Ed448
+		&[1, 2, 840, 113549, 1, 1, 10], // RSASSA-PSS
+		&[1, 3, 132, 1, 12],            // id-ecDH
+		&[1, 2, 840, 10040, 4, 1],      // DSA
+		&[1, 3, 6, 1, 4, 1, 55555, 9],
+	];
+	let mut alg = vec![enc_oid(oids[o.alg_oid as usize % 8])];
+	match o.params % 12 {
+		0 => {},
+		1 => alg.push(vec![0x05, 0x00]),
+		2 => alg.push(enc_oid(&[1, 2, 840, 10045, 3, 1, 7])),
+		3 => alg.push(enc_oid(&[1, 3, 132, 0, 34])),
+		4 => alg.push(enc_oid(&[1, 3, 132, 0, 35])),
+		5 => alg.push(enc_oid(&[1, 3, 132, 0, 10])),
+		6 => alg.push(enc_seq(&[])),
+		7 => alg.push(crate::der::enc_uint(1)),
+		8 => alg.push(enc_tlv(0x04, &[1, 2, 3])),
+		9 => {
+			alg.push(enc_oid(&[1, 2, 840, 10045, 3, 1, 7]));
+			alg.push(vec![0x05, 0x00]);
+		},
+		10 => alg.push(vec![0x06, 0x00]),
+		_ => alg.push(enc_seq(&[crate::der::enc_uint(1), enc_seq(&[enc_oid(&[1, 2, 840, 10045, 1, 1]), crate::der::enc_uint(23)])])),
+	}
+	let alg = enc_seq(&alg);
+	let fx = keys::fixture(&o.key);
+	if o.form % 4 == 0 {
+		let bits = o.key_octets.as_ref().map(|h| h.0.clone()).unwrap_or_else(|| fx.raw_public.clone());
+		let mut content = vec![if bits.is_empty() { 0 } else { o.unused_bits % 8 }];
+		content.extend(bits);
+		return Ok(enc_seq(&[alg, enc_tlv(0x03, &content)]));
+	}
+	// PKCS#8: take the fixture's inner private key octets
+	let l = crate::der::Lints::new();
+	let t = crate::der::read_single(&fx.pk8, &l, "pkcs8")?;
+	let parts = crate::der::children(t.content, &l)?;
+	let inner = o.key_octets.as_ref().map(|h| h.0.clone()).unwrap_or_else(|| parts.get(2).map(|p| p.content.to_vec()).unwrap_or_default());
+	let mut items = vec![enc_tlv(0x02, &o.version.0), alg, enc_tlv(0x04, &inner)];
+	match o.form % 4 {
+		2 => items.push(enc_tlv(0x81, &[&[0u8][..], &fx.raw_public].concat())),
+		3 => items.push(enc_tlv(0xa0, &enc_seq(&[enc_oid(&[1, 2, 3]), enc_tlv(0x31, &[])]))),
+		_ => {},
+	}
+	Ok(enc_seq(&items))
 }
 
 /// Field contents a generic DER parser accepts but rcgen's converters may not expect.
@@ -179,6 +270,7 @@ fn base_bytes(b: &Base) -> Result<Vec<u8>, String> {
 		Base::Crl(c) => build_crl(c)?.map_err(|e| e.to_string())?.crl.der().to_vec(),
 		Base::Random(h) => h.0.clone(),
 		Base::OddCa(o) => forge_odd_ca(o)?,
+		Base::OddKey(o) => forge_odd_key(o)?,
 	})
 }
 
@@ -318,6 +410,8 @@ pub fn check_bytes(c: &BytesCase, info: &mut CaseInfo) -> Result<(), String> {
 		Base::Crl(_) => "crl",
 		Base::Random(_) => "random",
 		Base::OddCa(_) => "odd-ca",
+		Base::OddKey(k) if k.form % 4 == 0 => "odd-spki",
+		Base::OddKey(_) => "odd-pkcs8",
 	}));
 	let mut bytes = base.clone();
 	let n = bytes.len();
@@ -384,6 +478,7 @@ fn bytes_case() -> BoxedStrategy<BytesCase> {
 		1 => crl_case(false, true).prop_map(Base::Crl),
 		1 => proptest::collection::vec(any::<u8>(), 0..200).prop_map(|b| Base::Random(Hex(b))),
 		4 => odd_ca().prop_map(Base::OddCa),
+		3 => odd_key().prop_map(Base::OddKey),
 	];
 	(
 		base,
@@ -593,6 +688,9 @@ fn dirty_text() -> impl Strategy<Value = String> {
 		}),
 		Just("http://exämple.com/crl".to_string()),
 		Just("\u{10ffff}".to_string()),
+		// long values: the offending character sits around the 64/128/256/512/1024-byte marks
+		(prop::sample::select(vec![60usize, 124, 252, 508, 1020]), 0usize..8, prop::sample::select(vec!['é', 'ß', '中', '\u{80}', '😀']), "[a-z]{0,4}")
+			.prop_map(|(n, d, c, tail)| format!("{}{c}{c}{tail}", "a".repeat(n + d))),
 	]
 }
 
